@@ -34,7 +34,14 @@ using namespace nixv;
 static std::string workdir;
 static nix::File file;
 static nix::Section sec;
-static nix::Property prop;
+static nix::Property prop;           // the handle the current line goes through (see select_handle)
+// HANDLE ROUTES: the one property is reached through several LIVE handles; a line may start with @<h>:
+//   @c  the handle createProperty returned (after a reopen: the first one fetched)   [default]
+//   @k  a second handle fetched by name right after creation / reopen and kept        @i  a kept handle fetched by id
+//   @f  a fresh handle by name      @x  a fresh handle by index      @l  a fresh handle out of Section::properties()
+//   @s  a fresh handle through a freshly fetched Section handle
+// Every kept handle has answered valueCount() / dataType() once when it was fetched.  The model has one property.
+static nix::Property h_main, h_kept, h_id;
 static int fileno_ = 0;
 static std::string path;
 
@@ -276,8 +283,31 @@ static std::string get_as(const nix::Variant &v, const std::string &T, bool tmpl
 
 static int sgn(int x) { return x < 0 ? -1 : x > 0 ? 1 : 0; }
 
+static void fetch_handles() {
+    h_kept = nix::none; h_id = nix::none;
+    if (!h_main) return;
+    try {
+        h_kept = sec.getProperty("p");
+        h_id = sec.getProperty(h_main.id());
+        if (h_kept) { (void) h_kept.valueCount(); (void) h_kept.dataType(); }
+        if (h_id) { (void) h_id.valueCount(); (void) h_id.dataType(); }
+    } catch (...) { }
+}
+
+static nix::Property select_handle(const std::string &h) {
+    if (!h_main) return nix::Property();
+    if (h == "c") return h_main;
+    if (h == "k") return h_kept ? h_kept : h_main;
+    if (h == "i") return h_id ? h_id : h_main;
+    if (h == "f") return sec.getProperty("p");
+    if (h == "x") return sec.getProperty(static_cast<nix::ndsize_t>(0));
+    if (h == "l") { std::vector<nix::Property> ps = sec.properties(); for (auto &q : ps) if (q.name() == "p") return q; return nix::Property(); }
+    if (h == "s") return file.getSection("s").getProperty("p");
+    throw std::logic_error("bad handle @" + h);
+}
+
 static void fresh() {
-    prop = nix::none;
+    prop = nix::none; h_main = nix::none; h_kept = nix::none; h_id = nix::none;
     sec = nix::none;
     if (file) { try { file.close(); } catch (...) {} }
     file = nix::none;
@@ -286,7 +316,19 @@ static void fresh() {
     sec = file.createSection("s", "t");
 }
 
-static std::string handle(const std::vector<std::string> &t) {
+static std::string handle_cmd(const std::vector<std::string> &t);
+
+static std::string handle(const std::vector<std::string> &t0) {
+    std::vector<std::string> t(t0);
+    std::string h = "c";
+    if (!t.empty() && t[0].size() >= 2 && t[0][0] == '@') { h = t[0].substr(1); t.erase(t.begin()); }
+    if (t.empty()) throw std::logic_error("empty command");
+    const std::string c = t[0].substr(0, t[0].find(':'));
+    if (c != "new_t" && c != "new_v" && c != "new_vs" && c != "reopen" && c[0] != 'v') prop = select_handle(h);
+    return handle_cmd(t);
+}
+
+static std::string handle_cmd(const std::vector<std::string> &t) {
     std::ostringstream o;
     const std::string full = t[0];
     const std::string route = route_of(full);
@@ -329,24 +371,29 @@ static std::string handle(const std::vector<std::string> &t) {
     if (c == "new_t" || c == "new_v" || c == "new_vs") {
         fresh();
         try {
-            if (c == "new_t") prop = sec.createProperty("p", dec_type(t.at(1)));
-            else if (c == "new_v") prop = sec.createProperty("p", via_route(dec_val(t.at(1)), route));
-            else prop = sec.createProperty("p", dec_vals_r(t, 1, route));
+            if (c == "new_t") h_main = sec.createProperty("p", dec_type(t.at(1)));
+            else if (c == "new_v") h_main = sec.createProperty("p", via_route(dec_val(t.at(1)), route));
+            else h_main = sec.createProperty("p", dec_vals_r(t, 1, route));
         } catch (...) {
             // a rejected create must leave nothing behind; if the section lists a property all the same,
             // later lines of the case observe it
-            try { if (sec.hasProperty("p")) prop = sec.getProperty("p"); } catch (...) {}
+            try { if (sec.hasProperty("p")) h_main = sec.getProperty("p"); } catch (...) {}
+            prop = h_main;
             throw;
         }
+        prop = h_main;
+        fetch_handles();
         return "done";
     }
     if (c == "reopen") {
-        prop = nix::none; sec = nix::none;
+        prop = nix::none; h_main = nix::none; h_kept = nix::none; h_id = nix::none; sec = nix::none;
         if (file) file.close();
         file = nix::none;
         file = nix::File::open(path, t.at(1) == "ro" ? nix::FileMode::ReadOnly : nix::FileMode::ReadWrite);
         sec = file.getSection("s");
-        if (sec && sec.hasProperty("p")) prop = sec.getProperty("p");
+        if (sec && sec.hasProperty("p")) h_main = sec.getProperty("p");
+        prop = h_main;
+        fetch_handles();
         return prop ? "done" : "noprop";
     }
     if (!prop) {
